@@ -111,10 +111,14 @@ func runPushScenario(c *rig.Ctx, t *tally, idx int) {
 	syncMs, asyncMs := 14000+rnd.Intn(6000), 6000+rnd.Intn(4000)
 	c.Case(fmt.Sprintf("c45/%s", s.name), map[string]any{"branches": s.branches, "writers": nWriters, "sync_phase_ms": syncMs, "async_phase_ms": asyncMs})
 
-	s.remoteDir = filepath.Join(s.base, "remote")
+	// A database created at run time gets the push-on-write hook only when dolt_replicate_to_remote AND
+	// dolt_replication_remote_url_template are set when it is created (NewConfigureReplicationDatabaseHook).
+	s.remoteDir = filepath.Join(s.base, "remotes", c45DB)
 	rig.Must(os.MkdirAll(s.remoteDir, 0o755))
 	s.src, s.rep = newProc(s.base, "src"), newProc(s.base, "rep")
-	rig.Must(os.WriteFile(s.src.Cfg, []byte(plainYAML(s.src, nil)), 0o644))
+	rig.Must(os.WriteFile(s.src.Cfg, []byte(plainYAML(s.src, map[string]string{
+		"dolt_replicate_to_remote":              "origin",
+		"dolt_replication_remote_url_template": "file://" + filepath.Join(s.base, "remotes") + "/{database}"})), 0o644))
 	rig.Must(os.WriteFile(s.rep.Cfg, []byte(plainYAML(s.rep, nil)), 0o644))
 	if err := s.src.start(); err != nil {
 		c.Inconclusive(s.name + ": cannot start the source server: " + err.Error())
@@ -124,8 +128,6 @@ func runPushScenario(c *rig.Ctx, t *tally, idx int) {
 	x, err := openSession(s.src.dsn(""))
 	rig.Must(err)
 	setup := []string{"create database " + c45DB, "use " + c45DB,
-		"call dolt_remote('add','origin','file://" + s.remoteDir + "')",
-		"set @@global.dolt_replicate_to_remote = 'origin'",
 		"create table t (w int, n int, j int, primary key (w,n,j))",
 		"insert into t values (0,0,0),(0,0,1)",
 		"call dolt_commit('-Am','setup')"}
@@ -512,13 +514,19 @@ func checkRowsAreCommitContent(msgs []string, byMsg map[string]*txRec, rs []row,
 	if seeds != c45SeedRows {
 		return fmt.Sprintf("%d of the %d setup rows", seeds, c45SeedRows)
 	}
-	// longest prefix of the log whose transactions are all present
-	p := 0
+	// longest prefix of the log (after the setup commit) whose transactions are all present
+	base := 0
+	for i, m := range msgs {
+		if m == "setup" {
+			base = i
+		}
+	}
+	p := base
 	for p+1 < len(msgs) && have[msgs[p+1]] > 0 {
 		p++
 	}
 	seen := 0
-	for i := 1; i <= p; i++ {
+	for i := base + 1; i <= p; i++ {
 		tx := byMsg[msgs[i]]
 		if tx == nil {
 			return "log message " + msgs[i] + " matches no transaction"
@@ -534,13 +542,13 @@ func checkRowsAreCommitContent(msgs []string, byMsg map[string]*txRec, rs []row,
 	if seen != len(have) {
 		for m := range have {
 			found := false
-			for i := 1; i <= p; i++ {
+			for i := base + 1; i <= p; i++ {
 				if msgs[i] == m {
 					found = true
 				}
 			}
 			if !found {
-				return fmt.Sprintf("rows of %s are shown, but not the rows of every commit before it on this branch (content matches log prefix of length %d only)", m, p)
+				return fmt.Sprintf("rows of %s are shown, but not the rows of every commit before it on this branch (content matches the first %d commits after setup only)", m, p-base)
 			}
 		}
 	}
